@@ -201,7 +201,7 @@ pub fn gen_seq(seed: u64, o: &SeqOpts) -> Plan {
     let clock_ms: u64 = 1_700_000_000_000 + rng.below(1_000_000);
     let open_op = |ids: &mut IdGen| Op {
         id: ids.next(),
-        kind: OpKind::Open { inst: 0, key: Some("k".into()), dir: "d".into(), alo, fsync: fsync.clone() },
+        kind: OpKind::Open { inst: 0, key: Some("k".into()), dir: "d".into(), alo, fsync: fsync.clone(), via_env: false },
     };
     let mut big_budget = if geometry == "real" { 3 } else { 12 };
     let mut clock_delta: i64 = 0;
@@ -473,13 +473,13 @@ pub fn gen_reclaim(seed: u64, property: &str) -> Plan {
     let mut incarnations = Vec::new();
     let clock_ms: u64 = 1_700_000_000_000 + rng.below(1_000_000);
     let mut outstanding: Vec<usize> = vec![0; n_topics];
-    let open_op = |ids: &mut IdGen| Op { id: ids.next(), kind: OpKind::Open { inst: 0, key: Some("k".into()), dir: "d".into(), alo, fsync: fsync.clone() } };
+    let open_op = |ids: &mut IdGen| Op { id: ids.next(), kind: OpKind::Open { inst: 0, key: Some("k".into()), dir: "d".into(), alo, fsync: fsync.clone(), via_env: false } };
     // lazy consumers leave data behind; eager ones drain often
     let eager = rng.chance(0.6);
     let cap_mode = rng.chance(0.3);
-    // at most a few of the 900-2000-entry batches per plan: a plan with dozens of them spends a minute of wall
+    // at most two of the 1050-1500-entry batches per plan (together more than the 2000-entry cap of one batch read): a plan with dozens of them spends a minute of wall
     // clock in the final read_next drain (four index I/O events per entry) and adds nothing
-    let mut cap_left = 4u32;
+    let mut cap_left = 2u32;
     for inc_i in 0..n_inc {
         let mut ops = vec![open_op(&mut ids)];
         let rounds = rng.range(3, 9);
@@ -492,7 +492,7 @@ pub fn gen_reclaim(seed: u64, property: &str) -> Plan {
                     cap_left -= 1;
                     // more pending entries than one batch read may return (2000): the read stops
                     // inside a block although its budget covered all of them
-                    let n = rng.range(900, 2000);
+                    let n = rng.range(1050, 1500);
                     let lens: Vec<u64> = (0..n).map(|_| rng.range(24, 40)).collect();
                     outstanding[t as usize] += lens.len();
                     ops.push(Op { id: ids.next(), kind: OpKind::BatchAppend { inst: 0, topic: t, lens } });
